@@ -28,31 +28,54 @@ class LinksMixin:
             cp = al.ConvP(ac.find_func(m0))
         except ac.Unsupported as e:
             return {"unmodelled": str(e)}
-        traced = trace_states(case["src"])
+        pre = al.has_prethreaded_loop(case["src"])
+        try:
+            traced = trace_states(case["src"])
+        except Exception as e:
+            # the pass (or the module verifier behind it) raised: an outcome the model has to predict (`weaveBad`)
+            return {"P": cp.body, "pass_raised": type(e).__name__, "msg": str(e)[:200]}
         f = ac.find_func(snaxrun.parse(traced))
         try:
             cl = al.ConvL(f)
         except ac.Unsupported as e:
             return {"unmodelled": "traced: " + str(e)}
-        return {"P": cp.body, "L": cl.body, "infer": cl.real_inference(), "annot": ac.real_inference_at_points(cl)}
+        # claim checked by the model's decidable link validation on the converted REAL IR (skipped in the class of DC07a)
+        return {"P": cp.body, "L": cl.body, "infer": cl.real_inference(), "annot": ac.real_inference_at_points(cl),
+                "links_sound": None if pre else True}
 
     def links_requests(self, case, impl_out):
         if "P" not in impl_out:
             return []
-        return [{"fn": "c07links.weave", "args": {"body": impl_out["P"]}},
-                {"fn": "c07links.infer", "args": {"body": impl_out["L"]}}]
+        reqs = [{"fn": "c07links.weave", "args": {"body": impl_out["P"]}}]
+        if "L" in impl_out:
+            reqs.append({"fn": "c07links.infer", "args": {"body": impl_out["L"]}})
+        return reqs
 
     def links_model(self, case, answers, impl_out):
         if "P" not in impl_out:
             return impl_out
-        w, i = answers
-        if "err" in w or "err" in i:
-            return {"model_error": w.get("err") or i.get("err")}
-        w, i = w["ok"], i["ok"]
+        w = answers[0]
+        if "err" in w:
+            return {"model_error": w["err"]}
+        w = w["ok"]
         if not w["wf"] or not w["nodup"]:
             return {"model_error": "converted program violates the theorems' well-formedness predicates", "wf": w["wf"], "nodup": w["nodup"]}
+        if w["plain"] == al.has_prethreaded_loop(case["src"]):
+            return {"model_error": "clause NoPreThreadedLoops evaluated differently by the model and the harness"}
+        if w["bad"]:
+            # the model predicts malformed IR (operands / block arguments of a loop do not match): the verifier raises
+            return {"P": impl_out["P"], "pass_raised": "VerifyException", "msg": impl_out.get("msg")}
+        if "L" not in impl_out:
+            return {"P": impl_out["P"], "L": w["woven"], "model_predicts": "no exception"}
+        i = answers[1]
+        if "err" in i:
+            return {"model_error": i["err"]}
+        i = i["ok"]
         out = {"P": impl_out["P"], "L": w["woven"], "infer": al.canon_states(w["infer"]),
-               "annot": [sorted(x) if isinstance(x, list) else x for x in w["annot"]]}
+               "annot": [sorted(x) if isinstance(x, list) else x for x in w["annot"]],
+               "links_sound": i["linksSound"] if w["plain"] else None}
+        if w["plain"] and not w["linksSound"]:
+            out["model_error"] = "soundChkB fails on weave p for a plain program (contradicts weave_links_agree_partial)"
         # the same inference on the converted REAL traced IR (meaningful also when the link structures differ)
         real_l = {"infer": al.canon_states(i["infer"]), "annot": [sorted(x) if isinstance(x, list) else x for x in i["annot"]]}
         if real_l["infer"] != impl_out["infer"] or real_l["annot"] != impl_out["annot"]:
@@ -96,7 +119,11 @@ class C07(LinksMixin, Prop):
         for i in range(n):
             g = ac.Gen(random.Random(rng.getrandbits(48)), full=rng.random() < 0.6, depth=rng.choice([1, 2, 2, 3]),
                        prethread=rng.random() < 0.4, carried=rng.choice([0.0, 0.0, 0.0, 0.5]))
-            yield {"kind": "links", "src": g.program(), "xseed": rng.getrandbits(32)}
+            src = g.program()
+            if rng.random() < 0.4:
+                # pre-existing loop-carried state (stale yields / inits: class of the known findings DC07a, DC07b)
+                src = al.prethread_loops(src, random.Random(rng.getrandbits(32)))
+            yield {"kind": "links", "src": src, "xseed": rng.getrandbits(32)}
 
     def impl(self, case):
         if case.get("kind") == "links":
@@ -149,8 +176,12 @@ class C07(LinksMixin, Prop):
     def oracle(self, case, impl_out):
         if "invalid_input" in impl_out:
             return []  # not a program: nothing to check
-        if "raised" in impl_out:
-            return [{"what": f"accfg-trace-states raised {impl_out['raised']}: {impl_out.get('msg')}", "finding": None}]
+        # classifier, by the named clause on the INPUT: a loop that already carries a state value (NoPreThreadedLoops)
+        pre = al.has_prethreaded_loop(case["src"])
+        raised = impl_out.get("raised") or impl_out.get("pass_raised")
+        if raised:
+            return [{"what": f"accfg-trace-states raised {raised}: {impl_out.get('msg')}",
+                     "finding": "DC07b" if pre and raised == "VerifyException" else None}]
         from snaxc.dialects import accfg
         from snaxc.inference.trace_acc_state import infer_state_of
         mod = snaxrun.parse(trace_states(case["src"]))
@@ -184,17 +215,19 @@ class C07(LinksMixin, Prop):
             except ac.Undefined as e:
                 bad.append(str(e))
             if bad:
-                return [{"what": f"{bad[0]} (args={args})", "finding": None}]
+                return [{"what": f"{bad[0]} (args={args})", "finding": "DC07a" if pre else None}]
         return []
 
     def stats_key(self, case, impl_out):
+        if case.get("kind") == "links" and "P" in impl_out and al.has_prethreaded_loop(case["src"]):
+            return "links:pre-threaded-loop" + (":pass-raised" if "pass_raised" in impl_out else "")
         if "unmodelled" in impl_out:
             return case.get("kind", "trace") + ":oracle-only(" + impl_out["unmodelled"] + ")"
         return super().stats_key(case, impl_out)
 
     def nontrivial(self, case, impl_out):
         if case.get("kind") == "links":
-            return "L" in impl_out and any(s for _, s in impl_out["infer"]) and ("scf.for" in case["src"] or "scf.if" in case["src"])
+            return "L" in impl_out and "infer" in impl_out and any(s for _, s in impl_out["infer"]) and ("scf.for" in case["src"] or "scf.if" in case["src"])
         return "prog" in impl_out and any(impl_out["points"]) and ("scf.for" in case["src"] or "scf.if" in case["src"])
 
     def mutants(self, case, rng):
